@@ -6,6 +6,10 @@ package main
 func (s *Session) extraObligations(prop string) ([]*Obligation, error) {
 	var out []*Obligation
 	switch prop {
+	case "C01", "C02", "C03", "C04", "C05", "C07", "C12", "C19":
+		out = append(out, s.tableObligations(prop)...)
+	}
+	switch prop {
 	case "C20":
 		out = append(out, s.c20Obligations()...)
 	case "C16":
